@@ -45,3 +45,23 @@ UNITS.append(Unit('backmp11.favor_compile_time.is_event_deferred', ['C05', 'C13'
         dict(name='SCOPE-visit', pat='state_visitor :: visit ( sm , visitor ) ;', rep='event_deferral_visit ( sm , & visitor ) ;', min=0, max=1),
         dict(name='visitor-result', pat='visitor . result ( )', rep='visitor . m_result', min=0, max=1)]),
     must_contain=[('backmp11/detail/state_visitor.hpp', 'bool result ( ) const { return m_result ; } protected : bool m_result { false } ;')], replay=['defer']))
+
+UNITS.append(Unit('backmp11.favor_compile_time.is_event_deferred_dispatch_table.construct', ['C05', 'C18', 'C13'], 'backmp11',
+    Part(CT, ['class is_event_deferred_dispatch_table'], 'is_event_deferred_dispatch_table ( const State & , const Fsm & )'),
+    'void deftable_construct(deftable_t* self)', 'ct_policy_mp11.spec.h', defines=['UNIT_DEF_TABLE_CTOR=1'],
+    xform=back_xform([], refparams=(), enums=ENUMS, drop=DROP2, foreach=True, size_of=gn,
+        pre_rewrites=[dict(name='TVAR-list', pat='using deferred_events = $*A ;', rep='', min=1, max=1),
+                      dict(name='TVAR-identities', pat='using deferred_event_identities = $*A ;', rep='', min=1, max=1),
+                      dict(name='DECLTYPE-identity', pat='using Event = typename decltype ( event_identity ) :: type ;', rep='const type_t Event = event_identity ;', min=1, max=1),
+                      dict(name='TVAL-type-index', pat='to_type_index < $1 > ( )', rep='TYPE_INDEX ( $1 )', min=0, max=2),
+                      dict(name='CAST-cell', pat='reinterpret_cast < generic_cell > ( & convert_and_execute < State , $1 , Fsm > )', rep='CELL_OF ( $1 )', min=0, max=2),
+                      dict(name='CONT-map-set', pat='m_cells [ TYPE_INDEX ( $1 ) ] = CELL_OF ( $2 ) ;', rep='cells_set ( self , TYPE_INDEX ( $1 ) , CELL_OF ( $2 ) ) ;', min=0, max=2)]),
+    loops={0: '__CPROVER_assigns(event_identity, g_next)\n'
+              '__CPROVER_loop_invariant(0 <= event_identity && event_identity <= g_n && g_next == event_identity)\n'
+              '__CPROVER_decreases(g_n - event_identity)'}, replay=['defer']))
+UNITS.append(Unit('backmp11.favor_compile_time.is_event_deferred_dispatch_table.convert_and_execute', ['C05', 'C18', 'C13'], 'backmp11',
+    Part(CT, ['class is_event_deferred_dispatch_table'], 'static bool convert_and_execute ( const State & state , const any_event & event , const Fsm & fsm )'),
+    '_Bool convert_and_execute(type_t Event, stref_t state, event_t event, const fsm_t* fsm)', 'ct_policy_mp11.spec.h', defines=['UNIT_DEF_CONVERT=1'],
+    xform=back_xform([], refparams=(), enums=ENUMS, drop=DROP2, pre_rewrites=[
+        dict(name='ANY-cast', pat='* any_cast < Event > ( & event )', rep='any_cast_ptr_deref ( Event , event )', min=0, max=1),
+        dict(name='member-call', pat='state . is_event_deferred (', rep='state_is_event_deferred ( state ,', min=0, max=1)]), replay=['defer']))
